@@ -20,7 +20,25 @@ def check(ctx, src):
     ctx.require(cq is not None and f is not None, "compile_quote / render_quoted_form not found")
     call = pyq.contains(cq, lambda n: isinstance(n, ast.Call) and dotted(n.func) == "render_quoted_form")
     lv = next((k.value for k in call.keywords if k.arg == "level"), None) if call is not None else None
-    ctx.check(lv is not None and norm(lv) == "Inf if root == 'quote' else 0", "QQ-ENTRY", f"{R}|compile_quote|level", f"entry level is `{norm(lv) if lv is not None else None}`", R, cq.lineno, witness="'(a ~b) substitutes b / `(a ~b) does not", detail="Inf for quote, 0 for quasiquote")
+    if lv is None and call is not None and len(call.args) >= 3:
+        lv = call.args[2]
+    # the values the entry level can take, each with the condition it is chosen under
+    alts = {}
+    if isinstance(lv, ast.IfExp):
+        alts = {str(norm(lv.body)): str(norm(lv.test)), str(norm(lv.orelse)): "else"}
+    elif isinstance(lv, ast.Name):
+        for n in ast.walk(cq):
+            if isinstance(n, ast.Assign) and len(n.targets) == 1 and isinstance(n.targets[0], ast.Name) and n.targets[0].id == lv.id:
+                if isinstance(n.value, ast.IfExp):
+                    alts.update({str(norm(n.value.body)): str(norm(n.value.test)), str(norm(n.value.orelse)): "else"})
+                else:
+                    at = [str(a) for a in pyq.atoms(n, cq)]
+                    alts[str(norm(n.value))] = at[0] if len(at) == 1 else ("else" if not at else " and ".join(at))
+    elif lv is not None:
+        alts = {str(norm(lv)): "always"}
+    good = alts in ({"Inf": "root == 'quote'", "0": "else"}, {"Inf": "root == 'quote'", "0": "root != 'quote'"}, {"0": "root == 'quasiquote'", "Inf": "else"},
+                    {"0": "root == 'quasiquote'", "Inf": "root != 'quasiquote'"}, {"0": "root != 'quote'", "Inf": "else"})
+    ctx.decide("QQ-ENTRY", f"{R}|compile_quote|level", None if not alts else good, f"the entry level is chosen as {alts}", R, cq.lineno, witness="'(a ~b) substitutes b / `(a ~b) does not", detail="Inf for quote, 0 for quasiquote")
     ctx.check(norm(pyq.walk_no_nested(cq).__next__()) is not None and "[0]" in norm(cq.body[-1]), "QQ-ENTRY", f"{R}|compile_quote|takes form", "compile_quote must compile the rendered form (element 0 of the pair)", R, cq.lineno, detail="[0]")
     inf = comp.rm.toplevel_assign("Inf")
     ctx.check(inf is not None and norm(inf) == "float('inf')", "QQ-ENTRY", f"{R}|Inf", "Inf is no longer float('inf')", R, 0, detail="float('inf')")
@@ -41,8 +59,13 @@ def check(ctx, src):
     ctx.check(norm(inner.body[-1]) == "level += 1 if op == 'quasiquote' else -1", "QQ-LEVEL", f"{R}|render_quoted_form|level step", f"level step is `{norm(inner.body[-1])}`", R, inner.lineno,
               witness="``(a ~~b) substitutes at the wrong depth", detail="+1 for quasiquote, -1 for unquote forms")
     rec = [c for c in pyq.calls(f) if dotted(c.func) == "render_quoted_form"]
-    ctx.check(len(rec) == 1 and norm(rec[0]) == "render_quoted_form(compiler, x, level)", "QQ-LEVEL", f"{R}|render_quoted_form|children level", f"children are rendered by {[norm(c) for c in rec]}; every child must get the current level", R, f.lineno,
-              witness='`f"{~x :>{~w}}" leaves (unquote w) in the format spec', detail="render_quoted_form(compiler, x, level)")
+    lvp = f.args.args[2].arg if len(f.args.args) > 2 else None
+    for rc_ in rec:
+        a = rc_.args[2] if len(rc_.args) >= 3 else next((k.value for k in rc_.keywords if k.arg == lvp), None)
+        ctx.decide("QQ-LEVEL", f"{R}|render_quoted_form|children level", None if a is None or lvp is None else (isinstance(a, ast.Name) and a.id == lvp),
+                   f"children are rendered at `{norm(a) if a is not None else None}`; every child of a sequence (the format spec of an f-string field included) must be rendered at the current level", R, rc_.lineno,
+                   witness="an unquote inside a nested replacement field of a format spec is left as a literal (unquote …) form", detail="level")
+    ctx.need(rec, "the recursive rendering of the children was not recognised")
     lp = rec[0]
     while lp is not None and not isinstance(lp, ast.For):
         lp = lp._parent
